@@ -22,6 +22,7 @@ class checkpoint(Flow):
         if not steps:
             steps = []
         super().__init__(*steps)
+        self.own_steps = tuple(steps)
         self.checkpoint_name = checkpoint_name
         self.checkpoint_path = os.path.join(checkpoint_path, checkpoint_name)
         self.resources = resources
@@ -43,5 +44,5 @@ class checkpoint(Flow):
                                                 _notify_checkpoint_saved(self.checkpoint_name)))
 
     def handle_flow_checkpoint(self, parent_chain):
-        self.chain = itertools.chain(self.chain, parent_chain)
+        self.chain = itertools.chain(self.own_steps, parent_chain)
         return [self]
